@@ -98,7 +98,11 @@ class ParserCore(Ctx):
 
     def _reset(self) -> None:
         self._initialize_caches()
-        self.keywords: set[str] = set(self.config.keywords or ())
+        # NOTE: folded for the ignorecase setting in effect for this parse
+        self.keywords: set[str] = {
+            k.upper() if self.config.ignorecase else k
+            for k in self.config.keywords or ()
+        }
         self.semantics = self.config.semantics
         self._actions_semantics = None
         self._actions = {}
